@@ -238,6 +238,11 @@ func checkC11(c *Ctx) {
 	// "for a test scope and every scope derived from it": a derived scope is configured like its parent
 	// (shared with C04 O2, including the agreement between the root constructor and the child constructor)
 	c.shared(checkC04, map[string]string{"O2 inheritance": "O1 derived-like-parent"})
+	// "the number of samples placed there by C03": the placement itself (shared with C03 O1/O2)
+	c.shared(checkC03, map[string]string{"O1 search-predicate": "O2 placed-by-search", "O1 search-range": "O2 placed-by-search", "O2 one-increment": "O2 placed-by-search"})
+	// "one entry per metric" of every scope derived from the test scope: the walk visits the registry's own
+	// tables (where derivation registers scopes), under their lock
+	c.checkForEachScopeSource("O1 visits-registered-scopes")
 
 	// ---- O3 locks ---------------------------------------------------------------------------------
 	eng := c.newLockEngine()
@@ -494,5 +499,98 @@ func (c *Ctx) checkSnapshotReads(rule string) {
 			}
 		}
 		c.check(ok, rule, key, fn.Pos(), "fresh map buckets[i]."+h.bound+" -> samples[i] count (same i); nil for the other kind", why)
+	}
+}
+
+// checkForEachScopeSource: ForEachScope - the walk behind Snapshot - hands its callback the scopes of
+// the registry's shard maps (scopeBucket.s, where Subscope registers every derived scope under the
+// shard's lock) and nothing else: every call of the callback receives the value of a range over a
+// loaded scopeBucket.s, and at least one such call exists. A walk over a second list kept beside the
+// maps shows what that list holds, not what is registered (a list appended to under one shard's lock
+// loses scopes created concurrently in two shards; a list that is pruned differently hides scopes).
+func (c *Ctx) checkForEachScopeSource(rule string) {
+	fn := c.fn("", "scopeRegistry", "ForEachScope")
+	fS := c.field("", "scopeBucket", "s")
+	if fn == nil || fS == nil || len(fn.Params) < 2 {
+		c.missing(rule, "tally.scopeRegistry.ForEachScope / scopeBucket.s")
+		return
+	}
+	key := c.fnKey(fn)
+	c.sawFunc(key)
+	n := 0
+	okAll := true
+	seen := map[*ssa.Function]bool{}
+	var visit func(g *ssa.Function, cb ssa.Value, depth int)
+	visit = func(g *ssa.Function, cb ssa.Value, depth int) {
+		if g == nil || g.Blocks == nil || seen[g] {
+			return
+		}
+		seen[g] = true
+		instrsOf(g, func(in ssa.Instruction) {
+			ci, isCall := in.(ssa.CallInstruction)
+			if !isCall {
+				// the callback stored or captured: not followed
+				for _, op := range in.Operands(nil) {
+					if op != nil && *op != nil && canon(*op) == cb {
+						if _, isDbg := in.(*ssa.DebugRef); isDbg {
+							continue
+						}
+						if _, isMC := in.(*ssa.MakeClosure); isMC {
+							okAll = false
+							c.bad(rule, key, in.Pos(), "the walk's callback is captured by a closure: which scopes it is called with is not decided", c.describe(in))
+						}
+					}
+				}
+				return
+			}
+			com := ci.Common()
+			if !com.IsInvoke() && canon(com.Value) == cb {
+				n++
+				// argument: value of a range over a loaded scopeBucket.s
+				arg := canon(com.Args[0])
+				fromShard := false
+				if ex, isEx := arg.(*ssa.Extract); isEx && ex.Index == 2 {
+					if nx, isNx := ex.Tuple.(*ssa.Next); isNx {
+						if rg, isRg := nx.Iter.(*ssa.Range); isRg {
+							if f, _ := loadedField(rg.X); f == fS {
+								fromShard = true
+							}
+						}
+					}
+				}
+				if !fromShard {
+					okAll = false
+					c.bad(rule, key, in.Pos(), "the walk calls its callback with a scope that is not an entry of a shard map (scopeBucket.s): the snapshot shows the scopes of some other list, which need not be the registered ones (scopes created concurrently, or kept after Close, can be missing)", c.describe(in))
+				}
+				return
+			}
+			// handed on to a helper: follow it
+			for i, a := range com.Args {
+				if canon(a) != cb {
+					continue
+				}
+				h := staticCallee(ci)
+				if h == nil || !c.inModule(h) || depth >= 2 {
+					okAll = false
+					c.bad(rule, key, in.Pos(), "the walk hands its callback to code that is not followed", c.describe(in))
+					continue
+				}
+				idx := i
+				if h.Signature.Recv() != nil && !com.IsInvoke() {
+					// Args include the receiver for static method calls; Params too
+				}
+				if idx < len(h.Params) {
+					visit(h, ssa.Value(h.Params[idx]), depth+1)
+				}
+			}
+		})
+	}
+	visit(fn, ssa.Value(fn.Params[1]), 0)
+	if n == 0 {
+		okAll = false
+		c.bad(rule, key, fn.Pos(), "ForEachScope never calls its callback")
+	}
+	if okAll {
+		c.ok(rule, key, fn.Pos(), fmt.Sprintf("the %d call(s) of the callback receive the entries of a range over a shard's scope map", n))
 	}
 }
